@@ -1,6 +1,7 @@
 package base
 
 import (
+	"strconv"
 	"strings"
 
 	"github.com/relex/gotils/promexporter/promext"
@@ -114,6 +115,9 @@ func (pcounter *LogProcessCounterSet) SelectMetricKeySet(record *LogRecord) *Log
 
 	tempMergedKey := pcounter.mergeKeyBuffer
 	for _, tkey := range tempKeys {
+		// prefix each key with its length so that different key tuples never merge into the same string
+		tempMergedKey = strconv.AppendInt(tempMergedKey, int64(len(tkey)), 10)
+		tempMergedKey = append(tempMergedKey, ':')
 		tempMergedKey = append(tempMergedKey, tkey...)
 	}
 	pcounter.mergeKeyBuffer = tempMergedKey[:0]
